@@ -238,6 +238,11 @@ func runC05(c *Ctx) {
 	}
 	nDisp := 0
 	for _, fn := range c.P.ModFuncs() {
+		// the property is about the Java edition's packet pipeline; pkg/edition/bedrock/proto is an
+		// unreferenced experimental decoder (no importer in the module) and not part of it
+		if pp := fnPkgPath(fn); !strings.HasPrefix(pp, Mod+"/pkg/edition/java") && !strings.HasPrefix(pp, Mod+"/pkg/gate") {
+			continue
+		}
 		for _, ci := range callsIn(fn, func(nm string, cc *ssa.CallCommon) bool {
 			return cc.IsInvoke() && (cc.Method.Name() == "Decode" || cc.Method.Name() == "Encode") && strings.HasSuffix(cc.Value.Type().String(), "gate/proto.Packet")
 		}) {
